@@ -620,3 +620,126 @@ func ruleQU3() Rule {
 			}
 		}}
 }
+
+// ---------------------------------------------------------------------------
+// FE1: an empty unquoted field produced by splitting never reaches the result.
+
+func ruleFE1() Rule {
+	return Rule{ID: "FE1", Kind: "must", Floor: 1,
+		Doc: "split() emits an empty field for adjacent delimiters and leaves it to its caller to drop the ones that contain nothing quoted. In Expand, whatever is added to the result for a field that came out of split() is added only under `!f.empty()` - in the loop itself, or inside the helper the field is handed to, before anything is returned for it - whichever option (NoGlob) is set",
+		Run: func(c *Ctx, rr *core.RuleResult) {
+			f := c.mustFn(rr, "interp.(*ExecEnv).Expand")
+			split := c.mustFn(rr, "interp.(*ExecEnv).split")
+			if f == nil || split == nil {
+				return
+			}
+			n := 0
+			c.regionNodes(f, func(g *core.Func, x ast.Node) bool {
+				rs, ok := x.(*ast.RangeStmt)
+				if !ok || rs.Value == nil {
+					return true
+				}
+				info := g.Info()
+				if !c.callsFunc(info, rs.X, split) {
+					// or a variable bound to split's result
+					id, isID := ast.Unparen(rs.X).(*ast.Ident)
+					if !isID || !boundToCallOf(c, g, info.Uses[id], split) {
+						return true
+					}
+				}
+				vid, ok := rs.Value.(*ast.Ident)
+				if !ok {
+					return true
+				}
+				v := info.Defs[vid]
+				notEmpty := func(h *core.Func, at ast.Node, obj types.Object) bool {
+					hi := h.Info()
+					for _, gd := range guardsOf(c.P, at, nil) {
+						call, ok := ast.Unparen(gd.cond).(*ast.CallExpr)
+						if !ok || gd.pos {
+							continue
+						}
+						se, ok := call.Fun.(*ast.SelectorExpr)
+						if !ok || se.Sel.Name != "empty" {
+							continue
+						}
+						if id, ok := ast.Unparen(se.X).(*ast.Ident); ok && hi.Uses[id] == obj {
+							return true
+						}
+					}
+					return false
+				}
+				ast.Inspect(rs.Body, func(y ast.Node) bool {
+					call, ok := y.(*ast.CallExpr)
+					if !ok || !isBuiltinCall(info, call, "append") || len(call.Args) < 2 {
+						return true
+					}
+					mentions := false
+					var helperCall *ast.CallExpr
+					for _, a := range call.Args[1:] {
+						ast.Inspect(a, func(z ast.Node) bool {
+							if id, ok := z.(*ast.Ident); ok && info.Uses[id] == v {
+								mentions = true
+							}
+							return true
+						})
+						if hc, ok := ast.Unparen(a).(*ast.CallExpr); ok {
+							helperCall = hc
+						}
+					}
+					if !mentions {
+						return true
+					}
+					n++
+					key := fmt.Sprintf("%s|field of split added #%d", f.Name, n)
+					if notEmpty(g, call, v) {
+						rr.OK(g, key, call.Pos(), "non-empty", "added only under !f.empty()")
+						return true
+					}
+					// inside the helper the field is handed to
+					if helperCall != nil {
+						if fo := core.StaticCallee(info, helperCall); fo != nil {
+							if h := c.P.FuncOf(fo); h != nil && h.Pkg == g.Pkg && h.Body != nil && h.Type.Params != nil {
+								hi := h.Info()
+								var hp types.Object
+								k := 0
+								for _, fld := range h.Type.Params.List {
+									for _, nm := range fld.Names {
+										if k < len(helperCall.Args) {
+											if id, ok := ast.Unparen(helperCall.Args[k]).(*ast.Ident); ok && info.Uses[id] == v {
+												hp = hi.Defs[nm]
+											}
+										}
+										k++
+									}
+								}
+								if hp != nil {
+									allOK := true
+									h.OwnNodes(func(z ast.Node) bool {
+										ret, ok := z.(*ast.ReturnStmt)
+										if !ok || len(ret.Results) == 0 || isNilIdent(hi, ret.Results[0]) {
+											return true
+										}
+										if !notEmpty(h, ret, hp) {
+											allOK = false
+										}
+										return true
+									})
+									if allOK {
+										rr.OK(g, key, call.Pos(), "non-empty", "the helper returns something for the field only under !f.empty()")
+										return true
+									}
+								}
+							}
+						}
+					}
+					rr.Bad(g, key, call.Pos(), "a field that came out of split() is added to the result without `!f.empty()` on some path: with a non-white-space IFS character next to another delimiter (`a::b`, `a, b` with IFS=\\\" ,\\\") an empty field that contains nothing quoted shows up in the result")
+					return true
+				})
+				return true
+			})
+			if n == 0 {
+				rr.Unk(f, f.Name+"|field of split added", f.Pos(), "no loop over split()'s result that appends to the result list: idiom not recognised")
+			}
+		}}
+}
